@@ -401,23 +401,37 @@ def _replay_chunk(args):
 _STATE_HDR = __import__('re').compile(r'^State \d+:\n', __import__('re').M)
 
 
-def final_bodies(res):
-    """Raw text of the dumped states in which a file has been read to its end (distinct files only)."""
+def final_bodies(res, wave=20000):
+    """Raw text of the dumped states in which a file has been read to its end (distinct ones), streamed from the dump in
+    waves of at most `wave` states so that large dumps never sit in memory."""
+    import hashlib
+    seen, out, cur = set(), [], []
+
+    def flush():
+        body = ''.join(cur)
+        if not body or 'phase = "start"' in body or 'outcome |-> "reading"' in body:
+            return
+        h = hashlib.md5(body.encode()).digest()
+        if h not in seen:
+            seen.add(h)
+            out.append(body)
     with open(res.dump_path) as fh:
-        chunks = _STATE_HDR.split(fh.read())[1:]
-    seen, out = set(), []
-    for body in chunks:
-        if 'phase = "start"' in body or 'outcome |-> "reading"' in body:
-            continue
-        if body in seen:
-            continue
-        seen.add(body)
-        out.append(body)
-    return out
+        for line in fh:
+            if line.startswith('State ') and _STATE_HDR.match(line):
+                flush()
+                cur = []
+                if len(out) >= wave:
+                    yield out
+                    out = []
+            else:
+                cur.append(line)
+    flush()
+    if out:
+        yield out
 
 
 def final_states(res):
-    return [tlaval.parse_state_body(b) for b in final_bodies(res)]
+    return [tlaval.parse_state_body(b) for wave in final_bodies(res) for b in wave]
 
 
 def run_model(name, skeletons, edit_menu, nedits, menu, max_extra, ffs_tla, trace_file='', timeout=1800):
@@ -432,10 +446,10 @@ def run_model(name, skeletons, edit_menu, nedits, menu, max_extra, ffs_tla, trac
 
 
 def replay_states(res, ev, vd, label, wanted=()):
-    bodies = final_bodies(res)
-    parts = common.chunks(bodies, tlc.NCPU * 2)
+    outs = []
     with mp.Pool(tlc.NCPU) as pool:
-        outs = pool.map(_replay_chunk, [(p, set(wanted)) for p in parts])
+        for bodies in final_bodies(res):
+            outs += pool.map(_replay_chunk, [(p, set(wanted)) for p in common.chunks(bodies, tlc.NCPU * 2)])
     unspec, kept, total, loaded = 0, {}, 0, 0
     for n, bad, u, cases, k, nl in outs:
         total += n
@@ -700,7 +714,7 @@ def run_part(tier, seed, ev, vd):
                'expected_first_mapping': expected_mapping(st['st']['out'][0])})
     if not quick:
         # two edits with a reduced menu on the two shorter skeletons
-        res = run_model('edits2', [SKEL_BLOCK, SKEL_LONGMOD], EDIT_MENU_QUICK[:10], 2, [], 0, ffs_tla, timeout=3000)
+        res = run_model('edits2', [SKEL_BLOCK, SKEL_LONGMOD], EDIT_MENU_QUICK[:4] + EDIT_MENU_QUICK[6:11], 2, [], 0, ffs_tla, timeout=3000)
         ev.add_tlc('TAB MappingFile (2 skeleton files, two edits)', res)
         unspec += replay_states(res, ev, vd, '.mapping two edits')[0]
     ev.extra['mapping_files_outside_grammar_not_compared'] = unspec
